@@ -42,6 +42,10 @@ def n1 : List Spec := [
   ⟨"extension", [1]⟩
 ]
 
+/-- functions beyond N1 that the experimental table offers, with the argument counts of the current
+    FHIRPath build (`join([separator])`) -/
+def experimentalSpec : List Spec := [⟨"join", [0, 1]⟩]
+
 /-- Go identifier of the implementation of a specification name: `impl.` ++ capitalised name -/
 def implName (n : String) : String :=
   match n.toList with
